@@ -4,7 +4,8 @@
    (Scope::lookupBinding / insertBinding) and the pieces of lib/llvm/Support/Path.cpp and StringRef.cpp they use
    (make_absolute, root_name, root_directory, relative_path, append; getAsInteger(10, long)), as the source is NOW
    (after the repairs 93e41ab: a rule variable that refers to itself is reported; 61345c3: rules are looked up
-   through the scope chain; 4fc9269: `default` paths are evaluated; 4a0983c: include nesting is bounded by 64).
+   through the scope chain; 4fc9269: `default` paths are evaluated; 4a0983c: include nesting is bounded by 64;
+   9d7b725: $in / $out are shell-quoted in every rule variable except depfile and rspfile).
    Definitions only (no proofs).
 
    Input of the model: what the PARSER (lib/Ninja/Parser.cpp) hands to ParseActions, i.e. the sequence of actOn*
@@ -492,10 +493,14 @@ Fixpoint lookup_var (fuel : nat) (cx : bctx) (active : list bytes) (name : bytes
 
 Definition var_fuel (rule : vars) : nat := S (length rule).
 
-(* lookupNamedBuildParameter: a fresh context per name; $in / $out are shell-escaped only for "command" *)
+(* shellEscapeInAndOut = name != "depfile" && name != "rspfile" *)
+Definition escapes_in_out (name : bytes) : bool := negb (bytes_eqb name nm_depfile) && negb (bytes_eqb name nm_rspfile).
+
+(* lookupNamedBuildParameter: a fresh context per name; $in / $out are shell-escaped except when the depfile and
+   rspfile NAMES are expanded (like Ninja: only the file name variables see the unescaped paths) *)
 Definition lookup_named (explicit outs : list bytes) (params rule : vars) (sc : scopes) (name : bytes)
   : bytes * list err :=
-  lookup_var (var_fuel rule) (mkCtx explicit outs params rule sc (bytes_eqb name nm_command)) [] name.
+  lookup_var (var_fuel rule) (mkCtx explicit outs params rule sc (escapes_in_out name)) [] name.
 
 (* ---------------------------------------------------------------- build statements *)
 
